@@ -17,6 +17,7 @@ class profile_init:
 
     def ensures(ballots, candidates, result):
         return (result.ballots == ballots and implies(len(candidates) > 0, result.candidates == candidates)
+                and distinct(result.candidates, len(result.candidates))  # given: validated; not given: listed from a set
                 and implies(len(candidates) == 0 and len(ballots) == 0, len(result.candidates) == 0)
                 and result.total_ballot_wt == wsum(ballots, len(ballots)) and result.num_ballots == len(ballots))
 
@@ -198,17 +199,3 @@ class get_profile:
 
     def invariant_0(self, profile, _k):
         return profile == replay(self._profile, self.election_states, _k)
-
-
-@contract("pref_profile.py", "PreferenceProfile.condense_ballots", props=(), assumed=True)
-class condense_assumed:
-    """ASSUMED (until its body is under contract): condensing keeps, for every ranking, the total weight of the ballots
-    carrying it (C11 checks the real function in the bounded tier); scores are not used by the callers that rely on this."""
-    params = dict(self=Profile)
-    returns = Profile
-    forall = dict(k=Seq(CSet))
-    trusted = ("assumed contract: PreferenceProfile.condense_ballots preserves the total weight per ranking",)
-
-    def ensures(self, result, k):
-        return (wrank(result.ballots, len(result.ballots), k) == wrank(self.ballots, len(self.ballots), k)
-                and result.candidates == self.candidates)
